@@ -1,7 +1,7 @@
 """C15 Constructed models are well-formed and parse back to the same content."""
 import decimal
 
-from .. import common, builder, walker
+from .. import valuestate, common, builder, walker
 from autobean_refactor import models
 from autobean_refactor.models import base as mbase
 
@@ -25,8 +25,8 @@ ENUM = _enum()
 CASES = {'quick': len(ENUM) + 5000, 'thorough': len(ENUM) * 4 + 60000}
 SMALL_BLOCKS = 4      # runner: every 4th case keeps its stores in 2..10-token blocks
 GATES = {
-    'quick': {'cases_in_small_blocks': 50, 'evaluations': 8500, 'built': 5000, 'enumerated_subsets': len(ENUM), 'classes_from_value': 28, 'classes_from_children': 34,
-              'in_file_checks': 1500, 'value_readbacks': 12000, 'custom_values_needing_disambiguation': 8, 'custom_signed_after_number': 8},
+    'quick': {'cases_in_small_blocks': 50, 'evaluations': 7500, 'built': 4500, 'enumerated_subsets': len(ENUM), 'classes_from_value': 28, 'classes_from_children': 34,
+              'in_file_checks': 1500, 'value_readbacks': 10000, 'custom_values_needing_disambiguation': 8, 'custom_signed_after_number': 8},
     'thorough': {'evaluations': 90000, 'classes_from_value': 28, 'classes_from_children': 34},
 }
 RULE = ('case = one constructed model. The first ' + str(len(ENUM)) + ' cases enumerate, for every model class and both constructors, every '
@@ -133,6 +133,13 @@ def check_model(col, m, cname, fn, args_desc, args):
         return
     if clines(m.token_store) != clines(g.token_store):
         col.violation(f'comment-lines-differ:{cname}.{fn}', 'comment lines differ after re-parse', wit)
+        return
+    # ... and both read the same through every public attribute (views, value properties, custom getters)
+    dv = valuestate.first_difference(valuestate.value_state(m), valuestate.value_state(g))
+    col.count('value_state_comparisons')
+    if dv:
+        col.violation(f'value-state-differs:{dv[1]}.{dv[2]}:{fn}', f'{dv[0]}.{dv[2]} reads {str(dv[3])[:160]} on the constructed model, '
+                      f'{str(dv[4])[:160]} on the re-parsed one', wit)
         return
     if fn == 'from_value':
         v = readback(col, m, cname, args)
